@@ -105,7 +105,7 @@ def mc(families, impl, mode, invariants, properties, liveness=False, timeout=300
 # ---------------------------------------------------------------------------
 # per property: invariants/properties of Sched.tla, families, negative controls
 DAG_Q = ["pair", "chain3p", "fanin1", "diamondp", "pullchain2", "pulltwice"]
-DAG_T = DAG_Q + ["pairL", "chain3t", "fanin2", "fanout", "diamondt", "pair3", "pairXL"]
+DAG_T = DAG_Q + ["pairL", "chain3t", "fanin2", "fanout", "fanoutshared", "diamondt", "pair3", "pairXL"]
 CYC_Q = ["ring2", "pullring", "pullringtail", "ringbreak", "ring2tail"]
 CYC_T = CYC_Q + ["ring3", "ring4"]
 
@@ -120,7 +120,7 @@ PLAN = {
                 quick=DAG_Q + ["ring2", "fanin2"], thorough=DAG_T + CYC_T,
                 neg=[(["pairL"], "nocompose", ["OnlyAllowedChoices"])], known_mc=[], extra_trace=[]),
     "C03": dict(inv=["EndReached"], prop=["Monotone", "NoLateUpdate", "Terminates"], live=True,
-                quick=["pair", "chain3p", "fanin1", "ring2"], thorough=DAG_T + CYC_T,
+                quick=["pair", "chain3p", "fanin1", "ring2", "diamondp", "pullchain2", "fanoutshared"], thorough=DAG_T + CYC_T,
                 neg=[], known_mc=[], extra_trace=[]),
     "C04": dict(inv=["NoFalseCycle", "UnbrokenNeverErr"],
                 prop=["CycleOnlyWhenReachable", "ResolvedCompletes", "UnbrokenReported"], live=True,
@@ -131,7 +131,7 @@ PLAN = {
                 known_mc=[], extra_trace=[]),
 }
 
-C05_Q = ["pair", "chain3p", "fanin1", "fanout", "diamondp", "ring2", "ringbreak"]
+C05_Q = ["pair", "chain3p", "fanin1", "fanout", "fanoutshared", "diamondp", "ring2", "ringbreak"]
 C05_T = C05_Q + ["chain3t", "fanin2", "diamondt", "pullchain2", "ring3", "pullring", "pairL"]
 
 VACUITY = {"C04": ["NeverCirc"], "C03": ["NeverDone"], "C01": [], "C02": []}
@@ -211,6 +211,15 @@ def check(pid, tier):
     for k, verdict in sorted(bad.items()):
         t = traces[k]
         p = sched_property(verdict, t["cfg"])
+        base = verdict.split("@")[0]
+        zone = t["cfg"].get("zone", "dag")
+        # C04: a delay-resolved cycle must complete "and the scheduling guarantees hold throughout"
+        if pid == "C04" and zone == "resolved" and base in ("served", "avail", "choice", "update-raised", "served-notify"):
+            p = pid
+        # C03: a valid (acyclic) composition must run to the end: a cycle report there is also a
+        # termination failure
+        if pid == "C03" and zone == "dag" and base in ("false-cycle", "false-cycle-zone"):
+            p = pid
         if p != pid:
             other[p] = other.get(p, 0) + 1
             continue
